@@ -9,6 +9,7 @@ import (
 	"flag"
 	"fmt"
 	"os"
+	"runtime/pprof"
 	"sort"
 	"strings"
 	"time"
@@ -31,6 +32,8 @@ func main() {
 		os.Exit(cmdReplay(os.Args[2:]))
 	case "minimise":
 		os.Exit(cmdMinimise(os.Args[2:]))
+	case "lincheck":
+		os.Exit(props.LinCheckMain())
 	case "selftest":
 		os.Exit(cmdSelftest(os.Args[2:]))
 	default:
@@ -60,26 +63,26 @@ func engineFor(id string, known map[string]bool) kit.Engine {
 
 // WorkerResult is what one worker process reports.
 type WorkerResult struct {
-	Property string                `json:"property"`
-	Seed     uint64                `json:"seed"`
-	First    int64                 `json:"first_index"`
-	Last     int64                 `json:"last_index"`
-	Executed int64                 `json:"executed"`
-	Stats    *kit.Stats            `json:"stats"`
-	Sigs     []uint64              `json:"sigs"`
-	SigShift uint                  `json:"sig_shift"`
-	LogHash  uint64                `json:"log_hash"`
-	Failure  *kit.Trace            `json:"failure,omitempty"`
-	Known    map[string]*KnownHit  `json:"known,omitempty"`
-	Samples  []*kit.Trace          `json:"samples,omitempty"`
-	WallS    float64               `json:"wall_s"`
+	Property string                 `json:"property"`
+	Seed     uint64                 `json:"seed"`
+	First    int64                  `json:"first_index"`
+	Last     int64                  `json:"last_index"`
+	Executed int64                  `json:"executed"`
+	Stats    *kit.Stats             `json:"stats"`
+	Sigs     []uint64               `json:"sigs"`
+	SigShift uint                   `json:"sig_shift"`
+	LogHash  uint64                 `json:"log_hash"`
+	Failure  *kit.Trace             `json:"failure,omitempty"`
+	Known    map[string]*KnownHit   `json:"known,omitempty"`
+	Samples  []*kit.Trace           `json:"samples,omitempty"`
+	WallS    float64                `json:"wall_s"`
 	Extra    map[string]interface{} `json:"extra,omitempty"`
 }
 
 // KnownHit counts occurrences of a listed known finding.
 type KnownHit struct {
-	Count  int64      `json:"count"`
-	Sample *kit.Trace `json:"sample"`
+	Count  int64         `json:"count"`
+	Sample *kit.Trace    `json:"sample"`
 	Viol   kit.Violation `json:"violation"`
 }
 
@@ -94,7 +97,13 @@ func cmdWork(args []string) int {
 	out := fs.String("out", "", "")
 	known := fs.String("known", "", "")
 	nsamples := fs.Int("samples", 3, "")
+	prof := fs.String("cpuprofile", "", "")
 	_ = fs.Parse(args)
+	if *prof != "" {
+		pf, _ := os.Create(*prof)
+		_ = pprof.StartCPUProfile(pf)
+		defer pprof.StopCPUProfile()
+	}
 	eng := engineFor(*prop, knownSet(*known))
 	if pre, ok := eng.(interface{ Prepare() error }); ok {
 		if err := pre.Prepare(); err != nil {
@@ -151,6 +160,18 @@ func cmdWork(args []string) int {
 		}
 		idx += *stride
 	}
+	if fin, ok := eng.(interface {
+		Finish(*kit.Stats) (*kit.Trace, error)
+	}); ok {
+		ft, err := fin.Finish(st)
+		if err != nil {
+			fmt.Fprintln(os.Stderr, err)
+			return 2
+		}
+		if ft != nil && res.Failure == nil {
+			res.Failure = ft
+		}
+	}
 	res.Stats = st
 	res.SigShift = shift
 	for s := range sigs {
@@ -197,6 +218,7 @@ func cmdReplay(args []string) int {
 	if *prop == "" {
 		*prop = t.Property
 	}
+	os.Setenv("VERIF_LIN_INPROC", "1")
 	eng := engineFor(*prop, knownSet(*known))
 	if pre, ok := eng.(interface{ Prepare() error }); ok {
 		if err := pre.Prepare(); err != nil {
